@@ -51,6 +51,17 @@ def build_poses(case):
         Rs = [np.eye(3)] * N
     if "yaw" in case and "steps" not in case and "P" not in case:
         pass
+    if case.get("int_dtype"):
+        # hand-written style input: integer lattice positions, quarter-turn rotations, matrices of an INTEGER dtype
+        P = np.round(P)
+        Rs = [np.round(gen.rot_matrix({"quarter": [k % 4, (k // 4) % 4, (k // 16) % 4]})) for k in (list(case["int_dtype"]) * N)[:N]]
+        mats = []
+        for R, pp in zip(Rs, P):
+            M = np.eye(4, dtype=np.int64)
+            M[:3, :3] = R.astype(np.int64)
+            M[:3, 3] = pp.astype(np.int64)
+            mats.append(M)
+        return P, Rs, mats
     return P, Rs, [rm.se3(R, p) for R, p in zip(Rs, P)]
 
 
@@ -315,8 +326,15 @@ st_bulk = st.fixed_dictionaries({
     "dr": st.sampled_from([0.05, 1.0, 3.0])})
 
 JUDGE = Sub("judge", sub_judge, st_random, 4000, 150000, nontrivial=_nontrivial, shards_quick=6)
+st_int = st.fixed_dictionaries({
+    "P": st.lists(st.lists(st.integers(-4, 4).map(float), min_size=3, max_size=3), min_size=2, max_size=10), "mag": st.just(1.0),
+    "int_dtype": st.lists(st.integers(0, 63), min_size=1, max_size=4), "unit": st.sampled_from(["m", "m", "r", "d", "f"]),
+    "delta": st.sampled_from([1.0, 1.5, 2.0, 2.5, 3.0, 90.0]), "tol": st.sampled_from([0.0, 0.1, 0.3, 0.5]), "all_pairs": st.booleans(),
+    "via": st.sampled_from(["filters", "metrics"])}).map(
+    lambda c: dict(c, delta=(1 if c["unit"] == "f" else (1.5707963267948966 if c["unit"] == "r" else (90.0 if c["unit"] == "d" else (c["delta"] if c["delta"] != 90.0 else 1.0))))))
+JUDGE_INT = Sub("judge_int", sub_judge, st_int, 600, 20000, nontrivial=_nontrivial, shards_quick=2)
 SUBS = [
-    JUDGE,
+    JUDGE, JUDGE_INT,
     Sub("path_grid", kind="custom", custom=custom_path_grid, n_quick=1, n_thorough=1, shards_quick=8, shards_thorough=16,
         exhaustive_tiers=("quick", "thorough")),
     Sub("angle_grid", kind="custom", custom=custom_angle_grid, n_quick=1, n_thorough=1, shards_quick=8, shards_thorough=16,
